@@ -125,7 +125,7 @@ def op_args(kind):
     if kind == "delete_schedule":
         return slots.map(lambda s: {"slot": s})
     if kind == "create_schedule":
-        return st.tuples(clock, clock, st.one_of(st.none(), day_sets), st.sampled_from(["set", "set", "list", "tuple"])).map(
+        return st.tuples(clock, clock, st.one_of(st.none(), day_sets), st.sampled_from(["set", "set", "frozenset", "list", "tuple"])).map(
             lambda t: {"start": t[0], "end": t[1], "days": t[2], "days_form": t[3]} if t[2] is not None
             else {"start": t[0], "end": t[1], "days": None})
     if kind == "set_position":
